@@ -60,6 +60,8 @@ FAMILIES = {
     "marks-var1": dict(n_axes=1, layout="onaxis", n_glyphs=8, composites=0.0, marks=dict(n_groups=3, n_marks=4)),
     "marks-var2": dict(n_axes=2, layout="corners", n_glyphs=8, composites=0.0, marks=dict(n_groups=2, n_ligs=2, mkmk=0.9)),
     "marks-intermediate": dict(n_axes=1, layout="intermediate", n_glyphs=8, composites=0.0, sparse_layers=1, marks=dict(n_groups=3, n_ligs=2)),
+    "marks-propagate": dict(n_axes=1, layout="onaxis", n_glyphs=10, composites=0.0, marks=dict(n_groups=3, n_marks=3, uncategorised=0.4, propagate=3)),
+    "marks-propagate-static": dict(n_axes=0, n_glyphs=10, composites=0.0, marks=dict(n_groups=2, n_marks=3, uncategorised=0.4, propagate=3)),
     "marks-multi": dict(n_axes=1, layout="onaxis", n_glyphs=10, composites=0.0, marks=dict(n_groups=4, n_marks=5, multi_mark=0.6, mkmk=0.7)),
 }
 
@@ -74,7 +76,7 @@ BY_PROPERTY = {
     "C17": ["c17-special-static", "c17-special-var", "var2-nested-xform", "c17-special-static", "var1-vertical", "c06-partial-notdef-mid", "kern-static"],
     "C12": ["c12-nested-scale", "c12-nested-rotate", "c12-nonexport-sparse", "c12-mixed-static", "c12-overflow", "var2-nested-xform"],
     "C09": ["kern-static", "kern-var1", "kern-divergent", "kern-many", "kern-intermediate", "kern-nogroups", "kern-exceptions", "kern-3x3"],
-    "C10": ["marks-static", "marks-var1", "marks-var2", "marks-intermediate", "marks-multi"],
+    "C10": ["marks-static", "marks-var1", "marks-propagate", "marks-var2", "marks-intermediate", "marks-propagate-static", "marks-multi", "marks-propagate"],
     "C16": ["rules-var1", "rules-var2", "rules-var2", "rules-var3"],
     "C18": ["names-var1", "names-var2", "names-static", "names-var1-collide", "names-twin", "names-var1-collide"],
     "C19": ["bnd-static", "bnd-var1", "bnd-var2", "bnd-static"],
